@@ -23,13 +23,16 @@ Section C13.
      expr_cache_pure / js_isolation / node_json_fresh, C20) - to be instantiated by the integrator *)
   Hypothesis CInv_mono : forall used used' c,
     (forall x, In x used -> In x used') -> CInv used c -> CInv used' c.
-  Hypothesis eval_cache_transparent : forall c s w,
-    fst (eval true c s w) = fst (eval false c s w).
+  Hypothesis eval_cache_transparent : forall s w,
+    content_stable_per_id s -> NoDup (w_ids w) ->
+    fst (eval true c0 s w) = fst (eval false c0 s w).
   Hypothesis eval_id_renaming : forall (f : N -> N) m s w,
+    content_stable_per_id s -> NoDup (w_ids w) ->
     (forall x y, In x (w_ids w) -> In y (w_ids w) -> f x = f y -> x = y) ->
     fst (eval m c0 s (w_rename f w)) = fst (eval m c0 s w).
   Hypothesis eval_caches_sound : forall used c m s w,
     CInv used c -> (forall i, In i (w_rec_ids w) -> ~ In i used) -> content_stable_per_id s ->
+    NoDup (w_ids w) ->
     fst (eval m c s w) = fst (eval m c0 s w) /\ CInv (w_rec_ids w ++ used) (snd (eval m c s w)).
   Notation run_env := (run_env schema V C eval marshal marshal_err_cont H canon).
   Notation Inv := (Inv C CInv).
@@ -169,17 +172,18 @@ Qed.
    pooling and JS caches off) satisfy Inv. *)
 Example c13_hypotheses_satisfiable :
   (forall used used' c, (forall x, In x used -> In x used') -> tCInv used c -> tCInv used' c) /\
-  (forall c s w, fst (teval true c s w) = fst (teval false c s w)) /\
-  (forall (f : N -> N) m s w,
+  (forall s w, tguard s -> NoDup (w_ids w) -> fst (teval true tc0 s w) = fst (teval false tc0 s w)) /\
+  (forall (f : N -> N) m s w, tguard s -> NoDup (w_ids w) ->
      (forall x y, In x (w_ids w) -> In y (w_ids w) -> f x = f y -> x = y) ->
      fst (teval m tc0 s (w_rename f w)) = fst (teval m tc0 s w)) /\
   (forall used c m s w, tCInv used c -> (forall i, In i (w_rec_ids w) -> ~ In i used) -> tguard s ->
+     NoDup (w_ids w) ->
      fst (teval m c s w) = fst (teval m tc0 s w) /\ tCInv (w_rec_ids w ++ used) (snd (teval m c s w))) /\
   Pipeline.Inv tcache tCInv h_fresh /\ Pipeline.Inv tcache tCInv h_warm /\ Pipeline.Inv tcache tCInv h_off /\
   tguard OnRecord.
 Proof.
-  split; [exact t_CInv_mono|]. split; [exact t_cache_transparent|].
-  split; [exact t_id_renaming|]. split; [exact t_caches_sound|].
+  split; [exact t_CInv_mono|]. split; [intros; apply t_cache_transparent|].
+  split; [intros; apply t_id_renaming; assumption|]. split; [intros; apply t_caches_sound; assumption|].
   split; [exact Inv_h_fresh|]. split; [exact Inv_h_warm|]. split; [exact Inv_h_off|reflexivity].
 Qed.
 
@@ -208,3 +212,177 @@ Proof.
     + repeat constructor; simpl; lia.
     + intros i [<-|[]]; simpl; intuition congruence.
 Qed.
+
+(* ---- the node pool: Model/Pipeline.v's allocator against C12's pointer-level heap model ---------- *)
+From OV Require Model.Heap Proofs.HeapRep Proofs.Heap Proofs.PipelineHeap.
+From Coq Require Import ZArith.
+
+(* create with New() hands out the ID the pipeline allocator hands out (the counter + 1), and the
+   allocator read off the successor heap state is the pipeline allocator's successor state *)
+Theorem alloc_refines_create_fresh : forall caching s F acq ty data fs picks,
+  HeapRep.Rep caching s F -> PipelineHeap.Nonneg s acq ->
+  exists s', Heap.create caching s Heap.Fresh ty data fs = Heap.Ok (s', Heap.next_addr s) /\
+    fresh_node (PipelineHeap.abs_alloc caching s picks) picks
+      = (PipelineHeap.idN (Heap.heap s') (Heap.next_addr s), PipelineHeap.abs_alloc caching s' picks) /\
+    Heap.id_of (Heap.heap s') (Heap.next_addr s) = (Heap.next_id s + 1)%Z /\
+    PipelineHeap.Nonneg s' (Heap.id_of (Heap.heap s') (Heap.next_addr s) :: acq).
+Proof. exact PipelineHeap.create_fresh_sim. Qed.
+
+(* create taking the k-th pooled node (any k): the same, the ID is the one the node got when it
+   was recycled *)
+Theorem alloc_refines_create_pool : forall s F acq k a ty data fs picks,
+  HeapRep.Rep true s F -> PipelineHeap.Nonneg s acq -> nth_error (Heap.pool s) k = Some a ->
+  exists s', Heap.create true s (Heap.FromPool a) ty data fs = Heap.Ok (s', a) /\
+    create_node (PipelineHeap.abs_alloc true s (k :: picks))
+      = (PipelineHeap.idN (Heap.heap s') a, PipelineHeap.abs_alloc true s' picks) /\
+    Heap.id_of (Heap.heap s') a = Heap.id_of (Heap.heap s) a /\
+    PipelineHeap.Nonneg s' (Heap.id_of (Heap.heap s') a :: acq).
+Proof. exact PipelineHeap.create_pool_sim. Qed.
+
+(* RemoveAndReleaseTree of a live node (with its subtree of k nodes) is release k *)
+Theorem alloc_refines_remove : forall caching s F acq n picks,
+  HeapRep.Rep caching s F -> PipelineHeap.Nonneg s acq -> Heap.pre_b caching s F (Heap.ORemove n) = true ->
+  exists s' k, Heap.remove_and_release caching (Heap.fuel_of s) s n = Heap.Ok s' /\
+    PipelineHeap.abs_alloc caching s' picks = release k (PipelineHeap.abs_alloc caching s picks) /\
+    PipelineHeap.Nonneg s' acq.
+Proof. exact PipelineHeap.remove_sim. Qed.
+
+(* in every state reachable by ANY history of API-respecting operations (any pool choices,
+   pooling on or off): all IDs are non-negative and the allocator invariant holds, with
+   used = the IDs handed out so far *)
+Theorem heap_reachable_nonneg : forall caching s F acq,
+  Heap.reachable caching s F acq -> PipelineHeap.Nonneg s acq.
+Proof. exact PipelineHeap.reachable_nonneg. Qed.
+
+Theorem heap_reachable_AInv : forall caching s F acq picks,
+  Heap.reachable caching s F acq -> AInv (map Z.to_N acq) (PipelineHeap.abs_alloc caching s picks).
+Proof. exact PipelineHeap.reachable_AInv. Qed.
+
+(* ... hence caches_invisible with NO hypothesis on the hidden state and NO evaluator hypothesis:
+   C02 evaluator, C12 heap machine *)
+Section C13_Heap_C02.
+  Variable query : tree -> bytes -> path -> option (list path).
+  Variable ext : bytes -> option bytes.
+  Variable fsigs : bytes -> option fsig.
+  Variable fcall : tree -> bytes -> path -> list value -> cfres.
+  Variable pcall : tree -> bytes -> path -> cfres.
+  Hypothesis query_valid : forall root x p ps,
+    valid root p -> query root x p = Some ps -> Forall (valid root) ps.
+  Variable marshal : value -> option bytes.
+  Variable marshal_err_cont : bool.
+  Variable H : bytes -> bytes.
+  Variable canon : tree -> bytes.
+  Notation run_env_c02 :=
+    (run_env vdecl value unit (eval_c02 query ext fsigs fcall pcall) marshal marshal_err_cont H canon).
+
+  Theorem caches_invisible_c02_heap :
+    forall caching s F acq picks memo caching' s' F' acq' picks' memo' d ctx us,
+    Heap.reachable caching s F acq -> Heap.reachable caching' s' F' acq' ->
+    run_env_c02 (mkHid (PipelineHeap.abs_alloc caching s picks) memo tt) d ctx us =
+    run_env_c02 (mkHid (PipelineHeap.abs_alloc caching' s' picks') memo' tt) d ctx us.
+  Proof.
+    exact (PipelineHeap.caches_invisible_c02_heap query ext fsigs fcall pcall query_valid marshal marshal_err_cont H canon).
+  Qed.
+End C13_Heap_C02.
+
+(* non-vacuity: the initial heap state is reachable, and its abstraction is the fresh allocator *)
+Example c13_heap_nonvacuous :
+  Heap.reachable true Heap.init [] [] /\
+  PipelineHeap.abs_alloc true Heap.init [2; 0] = mkA 0%N [] true [2; 0].
+Proof. split; [constructor|reflexivity]. Qed.
+
+(* ---- with JavaScript: evaluator-side caches = C20's JavaScript layer state --------------------------- *)
+(* Proofs/PipelineJs.v: C := Model/Js.v jsstate (disableCaching, VM pool, program cache, node-JSON
+   cache: any capacities and contents); eval_js runs the record's JavaScript calls through the
+   real stateful layer (Js.run), tabulates the answers and evaluates the record with the C02
+   evaluator whose oracle answers javascript / javascript_with_context from that table.
+   eval_caches_sound / CInv_mono / eval_cache_transparent / eval_id_renaming are DISCHARGED from
+   C20 (js_call_spec: program cache, node-JSON cache under the guard, VM isolation) and C02
+   (caches_invisible_eval, eval_id_renaming, and the oracle-extensionality of the evaluator).
+   Remaining modelling variables: which JavaScript calls a record's evaluation issues (jscalls),
+   how an invocation maps to a call (js_of, matches) and an outcome to a Go value (cf_of). *)
+From OV Require Model.Js Proofs.Js Proofs.JsRefute Proofs.PipelineJs.
+Module MJ := OV.Model.Js.
+Module PJ := OV.Proofs.Js.
+Module PJS := OV.Proofs.PipelineJs.
+
+Section C13_JS.
+  Variable r : MJ.rt.
+  Variable compile : N -> option MJ.script.
+  Hypothesis r_wf : PJ.rt_wf r.
+  Variable query : tree -> bytes -> path -> option (list path).
+  Variable ext : bytes -> option bytes.
+  Variable fsigs : bytes -> option fsig.
+  Variable fcall0 : tree -> bytes -> path -> list value -> cfres.
+  Variable pcall : tree -> bytes -> path -> cfres.
+  Hypothesis query_valid : forall root x p ps,
+    valid root p -> query root x p = Some ps -> Forall (valid root) ps.
+  Variable js_of : tree -> bytes -> path -> list value -> option (MJ.call * MJ.sched).
+  Variable matches : MJ.call * MJ.sched -> MJ.call * MJ.sched -> bool.
+  Hypothesis matches_spec : forall a b, matches a b = true ->
+    PJ.call_spec r compile (fst a) (snd a) = PJ.call_spec r compile (fst b) (snd b).
+  Variable cf_of : MJ.outcome * option bytes -> cfres.
+  Variable jscalls : bool -> vdecl -> world -> list (MJ.call * MJ.sched).
+  (* the F6 guard at pipeline level *)
+  Variable js_guard : vdecl -> Prop.
+  Hypothesis jscalls_wf : forall m s w, js_guard s -> NoDup (w_ids w) ->
+    forall c sc, In (c, sc) (jscalls m s w) ->
+      PJ.call_wf c sc /\ (forall id j, MJ.c_node c = Some (id, j) -> In id (w_rec_ids w)).
+  Hypothesis jscalls_stable : forall m s w, js_guard s -> NoDup (w_ids w) ->
+    PJ.content_stable_per_id (map fst (jscalls m s w)).
+  Variable progcap nodecap : N.
+  Variable marshal : value -> option bytes.
+  Variable marshal_err_cont : bool.
+  Variable H : bytes -> bytes.
+  Variable canon : tree -> bytes.
+  Notation eval_js := (PJS.eval_js r compile query ext fsigs fcall0 pcall js_of matches cf_of jscalls).
+  Notation run_env_js := (run_env vdecl value MJ.jsstate eval_js marshal marshal_err_cont H canon).
+  Notation InvJ := (PJS.InvJ r compile).
+
+  (* all hidden states: node pool / ID counter / sync.Pool schedule any, transform memo on or off,
+     JavaScript caches on or off, any capacities, any contents consistent with the invariant, VM
+     pool any contents equal to new runtimes; all schemas inside the guard *)
+  Theorem caches_invisible_js : forall h h' s ctx us,
+    InvJ h -> InvJ h' -> js_guard s -> run_env_js h s ctx us = run_env_js h' s ctx us.
+  Proof.
+    exact (PJS.caches_invisible_js r compile r_wf query ext fsigs fcall0 pcall query_valid js_of matches
+             matches_spec cf_of jscalls js_guard jscalls_wf jscalls_stable progcap nodecap
+             marshal marshal_err_cont H canon).
+  Qed.
+End C13_JS.
+
+(* a process that has not run anything yet satisfies InvJ whatever the switches and capacities *)
+Theorem js_fresh_process_inv : forall r compile pooling picks memo nocache pc nc,
+  PJS.InvJ r compile (mkHid (mkA 0%N [] pooling picks) memo (MJ.st_init nocache pc nc)).
+Proof. exact PJS.InvJ_fresh. Qed.
+
+(* non-vacuity: a runtime table meeting rt_wf, and a jscalls that really issues a
+   javascript_with_context call on the record node (its ID, its text as JSON) per record *)
+Definition tjs (_ : bool) (_ : vdecl) (w : world) : list (MJ.call * MJ.sched) :=
+  match w_rec_ids w with
+  | i :: _ => [(MJ.mkCall (Some (i, inner_text (w_rec w))) 1%N [] false, MJ.mkSched MJ.ChFresh [MJ.NODE] [MJ.NODE])]
+  | [] => []
+  end.
+
+Example c13_js_hypotheses_satisfiable :
+  PJ.rt_wf JsRefute.r0 /\
+  (forall m s w, True -> NoDup (w_ids w) -> forall c sc, In (c, sc) (tjs m s w) ->
+     PJ.call_wf c sc /\ (forall id j, MJ.c_node c = Some (id, j) -> In id (w_rec_ids w))) /\
+  (forall m s w, True -> NoDup (w_ids w) -> PJ.content_stable_per_id (map fst (tjs m s w))).
+Proof.
+  split; [exact JsRefute.r0_wf|split].
+  - intros m s w _ _ c sc Hin. unfold tjs in Hin. destruct (w_rec_ids w) as [|i l] eqn:E; [destruct Hin|].
+    destruct Hin as [Hin|[]]. inversion Hin; subst. split.
+    + apply PJ.call_wf_b_sound. vm_compute. reflexivity.
+    + intros id j Hc. simpl in Hc. inversion Hc; subst. now left.
+  - intros m s w _ _ c1 c2 id b1 b2 H1 H2 E1 E2. unfold tjs in *.
+    destruct (w_rec_ids w) as [|i l]; [destruct H1|].
+    destruct H1 as [<-|[]]. destruct H2 as [<-|[]]. simpl in *. congruence.
+Qed.
+
+(* the C12 heap machine in ANY reachable state + empty JavaScript caches (on or off, any
+   capacities) satisfies the invariant of caches_invisible_js *)
+Theorem heap_reachable_InvJ : forall r compile caching s F acq picks memo nocache pc nc,
+  Heap.reachable caching s F acq ->
+  PJS.InvJ r compile (mkHid (PipelineHeap.abs_alloc caching s picks) memo (MJ.st_init nocache pc nc)).
+Proof. exact PipelineHeap.reachable_InvJ. Qed.
